@@ -3,7 +3,7 @@ Case handlers for the generator properties C15–C18: the text a generator emitt
 the real parser, is compared with the model's formula and its models with the puzzle
 specification.
 -/
-import Rsbdd.Driver.FormulaCases
+import Rsbdd.Driver.DotCases
 import Rsbdd.Model.Gen.Queens
 import Rsbdd.Model.Gen.Clique
 import Rsbdd.Model.Gen.Sudoku
@@ -96,6 +96,99 @@ def handleC15 (fields : List String) : Verdict :=
         { modelOk, modelOut := s!"{(Queens.constraints n).length} constraints", oracle := orElse o1 (orElse o2 o3),
           nontrivial := n ≥ 4 }
   | _ => Verdict.badLine "unknown C15 line"
+
+end Driver
+end Rsbdd
+
+namespace Rsbdd
+namespace Driver
+open Gen Puzzles
+
+def dedupS (xs : List String) : List String :=
+  xs.foldl (fun acc x => if acc.contains x then acc else acc ++ [x]) []
+
+def sortStrings (xs : List String) : List String := (xs.toArray.qsort (· < ·)).toList
+
+/-- the copy prefix the generator chooses: `v_`, lengthened with `_` until no vertex name is
+prefix ++ another vertex name (bounded: names are finite) -/
+def copyPrefix (vs : List String) : String :=
+  let rec go (fuel : Nat) (p : String) : String :=
+    match fuel with
+    | 0 => p
+    | fuel + 1 => if vs.any (fun v => vs.contains (p ++ v)) then go fuel (p ++ "_") else p
+  go 64 "v_"
+
+/-- `clique|u|a|edges (hexa>hexb,…)|exit class|tree (real ids)|names (hexname:id,…)|solver rows or -` -/
+def handleC16 (fields : List String) : Verdict :=
+  match fields with
+  | ["clique", u, a, edges, cls, ast, names, solver] =>
+    let undirected := u == "1"; let all := a == "1"
+    let edgesL : Option (List (String × String)) :=
+      if edges.isEmpty then some [] else (edges.splitOn ",").mapM (fun e => match e.splitOn ">" with
+        | [x, y] => match unhexStr x, unhexStr y with
+          | some x, some y => some (x, y)
+          | _, _ => none
+        | _ => none)
+    match edgesL, parseVarTable names with
+    | some es, some namesT =>
+      if cls != "ok" then { modelOk := false, modelOut := "ok", oracle := some s!"max_clique_gen did not succeed ({cls})" } else
+      match parseFormula ast with
+      | none => { modelOk := false, modelOut := "a formula", oracle := some "the output is not a well-formed formula" }
+      | some f =>
+        let verts := sortStrings (dedupS (es.flatMap (fun e => [e.1, e.2])))
+        let k := verts.length
+        if k > 5 then Verdict.badLine "too many vertices for the oracle" else
+        let idxOf := fun (n : String) => (verts.idxOf? n).getD 0
+        let edgesI := es.map (fun e => (idxOf e.1, idxOf e.2))
+        -- ids: the real tokenizer's, for names the output mentions; fresh ones otherwise
+        let namesT' := namesT.filterMap (fun v => (unhexStr v.1).map (fun n => (n, v.2)))
+        let maxId := namesT'.foldl (fun m v => max m (v.2 + 1)) 0
+        let pre := copyPrefix verts
+        let allNames := dedupS (verts ++ verts.map (pre ++ ·))
+        let idOfName := fun (n : String) => match namesT'.find? (fun v => v.1 == n) with
+          | some v => v.2
+          | none => maxId + (allNames.idxOf? n).getD 0
+        let vid := fun (i : Nat) => idOfName (verts.getD i "")
+        let cid := fun (i : Nat) => idOfName (pre ++ verts.getD i "")
+        let m := Clique.formula edgesI (List.range k) undirected all vid cid
+        let U := sortNats (dedup ((List.range k).map vid ++ (List.range k).map cid ++ SemExec.allVars f))
+        if U.length > 12 then Verdict.badLine "too many variables" else
+        match SemExec.semTT U 4 (modelFuel f) f [], SemExec.semTT U 4 (modelFuel m) m [] with
+        | some ttR, some ttM =>
+          let modelOk := ttR == ttM
+          -- oracle: as a function of the vertex variables the formula holds exactly on the (maximum) cliques
+          let adj := fun (x y : Nat) =>
+            if undirected then edgesI.contains (x, y) || edgesI.contains (y, x)
+            else edgesI.contains (x, y) && edgesI.contains (y, x)
+          let best := maxCliqueSize adj (List.range k)
+          let vertexIds := (List.range k).map vid
+          let bad := (List.range (2 ^ U.length)).find? (fun mask =>
+            let sset := (List.range k).filter (fun i => match U.idxOf? (vid i) with
+              | some j => mask.testBit j | none => false)
+            let want := isClique adj sset && (all || sset.length == best)
+            tt_get ttR mask != want)
+          let o := match bad with
+            | some mask =>
+              let sset := (List.range k).filter (fun i => match U.idxOf? (vid i) with
+                | some j => mask.testBit j | none => false)
+              some s!"vertex set {sset.map (fun i => verts.getD i "")}: the formula says {tt_get ttR mask}, but it is {if isClique adj sset then "a clique" else "not a clique"} of size {sset.length} (maximum clique size {best})"
+            | none =>
+              if solver == "-" then none else
+              let rows := (solver.splitOn ";").filter (· ≠ "")
+              let want := ((subsetsOf (List.range k)).filter (fun s => isClique adj s && (all || s.length == best))).map
+                (fun s => String.intercalate "." (sortStrings (s.map (fun i => hexOf (verts.getD i "")))))
+              -- rows may leave unmentioned vertices out; compare only when every vertex is mentioned
+              if (List.range k).all (fun i => namesT'.any (fun v => v.1 == verts.getD i "")) &&
+                 !(rows.all (want.contains ·) && want.all (rows.contains ·)) then
+                some s!"rsbdd lists {rows.length} vertex sets, the (maximum) cliques are {want.length}"
+              else none
+          let _ := vertexIds
+          { modelOk, modelOut := s!"prefix {pre}", oracle := o, nontrivial := k ≥ 3 }
+        | _, _ => Verdict.badLine "cannot evaluate"
+    | _, _ => Verdict.badLine "unreadable clique line"
+  | _ => Verdict.badLine "unknown C16 line"
+where
+  tt_get (tt : SemExec.TT) (m : Nat) : Bool := tt.getD m false
 
 end Driver
 end Rsbdd
